@@ -63,6 +63,42 @@ def check(tier, seed):
                     rep.violation('implementation-vs-oracle', [l], {'profile': 'checked', 'output': a, 'oracle': 'must be false'}, True)
                 elif core.canon(a) != core.canon(m_):
                     rep.violation('correspondence', [l], {'rust_checked': a, 'model_checked': m_[:200]}, False)
+    # --- constructed hint shapes (valid forgeries under the t1 = 0 key): every bit of the hint section and its count bytes.
+    # Shapes whose malleability, if any, hides in the padding: a last polynomial holding only index 0 (a repeated index 0 is then
+    # indistinguishable from padding), a first polynomial holding only index 0, index 0 everywhere, index 255, no hint at all.
+    for s in fam.SETS:
+        p = R.PARAMS[s]
+        k, om = p['k'], p['omega']
+        def hv(spec):
+            h = [[0] * 256 for _ in range(k)]
+            for i, idxs in spec.items():
+                for j in idxs:
+                    h[i][j] = 1
+            return h
+        shapes = [('last polynomial = {0}, others two hints', {0: [3, 7], k - 1: [0]}), ('only hint: last polynomial {0}', {k - 1: [0]}),
+                  ('first polynomial = {0}', {0: [0], 1: [5]}), ('index 0 in every polynomial', {i: [0] for i in range(k)}),
+                  ('index 255 in the last polynomial', {k - 1: [255]}), ('no hint', {}), ('last polynomial = {0, 1}', {k - 1: [0, 1]}),
+                  ('middle polynomial = {0}, later ones empty', {k // 2: [0]})]
+        for tag, spec in shapes:
+            msg = bytes(rng.randrange(256) for _ in range(9))
+            ctx = bytes(rng.randrange(256) for _ in range(3))
+            z = fam.rand_z(rng, p, 50)
+            pk, sig, _ = fam.forge(s, bytes(32), z, hv(spec), msg, ctx, 'pure')
+            base = f"verify {s} pure bytes:{pk.hex()} {hx(msg)} {hx(ctx)} {sig.hex()}"
+            lines, tags = [base], ['unmodified tuple']
+            for i in range((len(sig) - om - k) * 8, len(sig) * 8):
+                x = bytearray(sig); x[i // 8] ^= 1 << (i % 8)
+                lines.append(f"verify {s} pure bytes:{pk.hex()} {hx(msg)} {hx(ctx)} {x.hex()}"); tags.append('hint-section bit (constructed shape)')
+            outs = core.run_stream([core.RUST['fast']], lines)
+            rep.evaluations += len(lines)
+            for l, tg, o in zip(lines, tags, outs):
+                rep.count(tg)
+                want = 'true' if tg == 'unmodified tuple' else 'false'
+                if o != want:
+                    rep.violation('implementation-vs-oracle', [l], {'tag': tg, 'shape': tag, 'output': o, 'oracle': f'must be {want}'}, True)
+                else:
+                    rep.nontrivial.add((s, tag, tg, len(rep.nontrivial)))
+        rep.sample(f"[{s}] {len(shapes)} constructed hint shapes x every bit of the hint section, all rejected")
     return core.finish(rep, b, 'proof', {
         'exhaustive': True,
         'rule': 'for each sampled valid tuple, every single-bit position of the signature, public key, message and context (exhaustive per tuple; tuple count is the sample); '
